@@ -359,9 +359,9 @@ var ids = []interface{}{nil, 0, 1, int8(7), int16(7), int32(7), int64(1) << 40, 
 var values = []interface{}{"", "1", true, false, int(1), int8(1), int16(1), int32(1), int64(1), uint(1), uint8(1), uint16(1), uint32(1), uint64(1), float32(1), float64(1),
 	float32(0.5), float64(0.5), float32(0.1), float64(0.1), float64(float32(0.1)), int64(-1), nil, []int{1}, map[string]int{"a": 1}, strer{}, 1e21, int64(-1) << 40, uint64(1) << 63,
 	// strings and string lists whose JSON text needs escaping (uncomparable values travel as their encoding/json text)
-	"Fish & <Chips>\x07\u2028", []string{"Fish & Chips", "bell\x07", "nb\u00a0sp", "del\x7f"}, []interface{}{"<tag>", "q\"uote", "bad\xff"}, []string{}, []interface{}{"a", 1}}
+	"Fish & <Chips>\x07\u2028", "caf\xe9 (latin-1 bytes)", []string{"Fish & Chips", "bell\x07", "nb\u00a0sp", "del\x7f"}, []interface{}{"<tag>", "q\"uote", "bad\xff"}, []string{}, []interface{}{"a", 1}}
 
-var keys = []string{"a", "b", "", "ä"}
+var keys = []string{"a", "b", "", "ä", "k\xff"} // the last one is not valid UTF-8: strings travel byte for byte
 
 func main() {
 	r := ev.New("C03", "model_checking")
@@ -403,7 +403,7 @@ func main() {
 	genLayers := func(c *mc.Ctx) mvt.Layers {
 		var ls mvt.Layers
 		for i, n := 0, []int{1, 2, 0}[c.Choose(3)]; i < n; i++ {
-			l := &mvt.Layer{Name: []string{"layer", "", "other"}[c.Choose(3)], Version: []uint32{1, 2}[c.Choose(2)], Extent: []uint32{4096, 256, 512, 1024, 2048, 8192}[c.Choose(6)]}
+			l := &mvt.Layer{Name: []string{"layer", "", "other", "stra\xdfe"}[c.Choose(4)], Version: []uint32{1, 2}[c.Choose(2)], Extent: []uint32{4096, 256, 512, 1024, 2048, 8192}[c.Choose(6)]}
 			for j, m := 0, []int{1, 2, 3, 0}[c.Choose(4)]; j < m; j++ {
 				l.Features = append(l.Features, genFeature(c))
 			}
